@@ -38,6 +38,7 @@ type (
 	call struct {
 		callee node
 		args   []arg
+		layout int // 0 = one line; 1..4 = the argument list written over several lines (see call.src)
 	}
 	propCall struct {
 		recv     node
@@ -130,7 +131,21 @@ func (n funcLit) src() string {
 	}
 	return open + "|" + strings.Join(ps, ", ") + "| " + bodySrc(n.body) + "}"
 }
-func (n call) src() string { return n.callee.src() + "(" + argsSrc(n.args) + ")" }
+func (n call) src() string {
+	a := argsSrc(n.args)
+	multi := strings.ReplaceAll(a, ", ", ",\n  ")
+	switch n.layout {
+	case 1: // a break after `(`, after every comma and before `)`
+		return n.callee.src() + "(\n  " + multi + "\n)"
+	case 2: // a break after every comma
+		return n.callee.src() + "(" + multi + ")"
+	case 3: // breaks after `(` and before `)`
+		return n.callee.src() + "(\n  " + a + "\n)"
+	case 4: // a break before `)` only
+		return n.callee.src() + "(" + a + "\n)"
+	}
+	return n.callee.src() + "(" + a + ")"
+}
 func (n propCall) src() string {
 	if n.noParens {
 		return n.recv.src() + "." + n.name
